@@ -226,12 +226,19 @@ def real_part(tier, pid, focus, verdict):
             results.append(ce)
             if ce['cheated']:
                 break
+        cei = cheat_exit_inherit_scenario(root, bindir)
+        n_cheat += 1 if cei['cheated'] else 0
+        results.append(cei)
         results.append(cycle_parallel_scenario(root, bindir))
         nc = nested_cheat_scenario(root, bindir)
         results.append(nc)
         n_cheat += 1 if nc['cheated'] else 0
     n_coinc = 0
     if focus == 'sched':
+        for fl in (False, True):
+            ce = cheat_exit_scenario(root, bindir, verdict, fail=fl)
+            n_cheat += 1 if ce['cheated'] else 0
+            results.append(ce)
         results.append(lockwait_batch_scenario(root, bindir))
         with ThreadPoolExecutor(4) as ex:
             tts = list(ex.map(lambda k: token_timer_scenario(root, bindir, k), range(4 if tier == 'quick' else 12)))
@@ -343,6 +350,95 @@ def cheat_exit_scenario(root, bindir, verdict, fail=False):
            'cheated': cheated}
     with open(os.path.join(d, 'scenario.json'), 'w') as f:
         json.dump({'scenario': sc, 'files': files, 'commands': [r], 'problems': res['problems'], 'cheated': cheated}, f, indent=1)
+    return res
+
+
+def cheat_exit_inherit_scenario(root, bindir):
+    """the cheat_exit situation below an *inherited* jobserver (the harness is make and has no spare token): the sub-redo of
+    target a gives its token up for a lock wait, make takes it; the sub-redo borrows (the log viewer follows a), builds on
+    the borrowed token and leaves a byte on the cheat pipe; the outermost redo eats that byte when it reaps a and has no token
+    left: it must get one back (make returns it later) before it exits, or the pool ends with one token too many"""
+    import subprocess
+    import threading
+    d = os.path.join(root, 'cheat_exit_inherit')
+    shutil.rmtree(d, ignore_errors=True)
+    p = os.path.join(d, 'p')
+    os.makedirs(p)
+    files = {'a.do': 'redo-ifchange x\necho "a working" >&2\nsleep 1.0\necho a\n',
+             'x.do': 'if [ -n "$FAILX" ]; then sleep 1.5; echo "x fails" >&2; exit 1; fi\nsleep 0.2\necho x\n'}
+    for n, t in files.items():
+        with open(os.path.join(p, n), 'w') as f:
+            f.write(t)
+    trace = os.path.join(d, 'trace.ndjson')
+    open(trace, 'w').close()
+    tb = os.path.join(d, 'traceB.ndjson')
+    pb = subprocess.Popen(['redo', 'x'], cwd=p, env=jobdrive.base_env(bindir, tb, {'FAILX': '1'}), stdin=subprocess.DEVNULL,
+                          stdout=subprocess.DEVNULL, stderr=subprocess.DEVNULL, start_new_session=True)
+    time.sleep(0.4)
+    world = jobdrive.World(0, trace, random.Random(5), active=False)
+    os.set_blocking(world.r, False)
+    state = {'held': 0, 'stop': False, 'returned': False}
+    lock = threading.Lock()
+
+    def taker():
+        while not state['stop'] and not state['returned']:
+            try:
+                b = os.read(world.r, 1)
+            except BlockingIOError:
+                b = b''
+            if b:
+                with lock:
+                    state['held'] += 1
+                world.emit('WorldTake', n=1)
+            else:
+                time.sleep(0.002)
+
+    def give_back():
+        state['returned'] = True
+        time.sleep(0.01)
+        with lock:
+            n, state['held'] = state['held'], 0
+        for _ in range(n):
+            world.emit('WorldPut', n=1)
+            os.write(world.w, b't')
+    th = threading.Thread(target=taker, daemon=True)
+    timer = threading.Timer(5.5, give_back)
+    pa = subprocess.Popen(['redo', 'a'], cwd=p, env=jobdrive.base_env(bindir, trace, world.env()), stdin=subprocess.DEVNULL,
+                          stdout=subprocess.PIPE, stderr=subprocess.PIPE, start_new_session=True, pass_fds=world.fds())
+    world.dom = pa.pid
+    th.start()
+    timer.start()
+    to = False
+    try:
+        so, se = pa.communicate(timeout=40)
+    except subprocess.TimeoutExpired:
+        to = True
+        snap = jobdrive.process_snapshot(pa.pid)
+        try:
+            os.killpg(pa.pid, 9)
+        except ProcessLookupError:
+            pass
+        so, se = pa.communicate()
+        se += ('\n[harness] did not terminate; snapshot:\n' + snap).encode()
+    early = not state['returned']          # the command ended before make gave the token back
+    timer.cancel()
+    state['stop'] = True
+    th.join()
+    give_back()
+    toks, cheats = world.finish()
+    pb.wait()
+    r = {'rc': pa.returncode, 'stdout': so.decode('utf-8', 'replace')[-500:], 'stderr': se.decode('utf-8', 'replace')[-3000:],
+         'timed_out': to, 'pid': pa.pid, 'argv': ['redo', 'a'],
+         'world': {'tokens_left': toks, 'cheat_bytes_left': cheats, 'tokens_given': 0}}
+    probs = ['redo a (under the harness jobserver): ' + x for x in jobdrive.classify(r, True)]
+    if toks - cheats != 0:
+        probs.append('inherited jobserver: gave 0 tokens, %d-%d left after redo a' % (toks, cheats))
+    cheated = '"ev":"Cheat"' in open(trace).read()
+    res = {'sc': {'id': 'cheat_exit_inherit', 'j': 1, 'inherit': True}, 'dir': d, 'trace': trace, 'problems': probs, 'cmds': [r],
+           'pj': files, 'cheated': cheated, 'ended_before_token_returned': early}
+    with open(os.path.join(d, 'scenario.json'), 'w') as f:
+        json.dump({'scenario': res['sc'], 'files': files, 'commands': [r], 'problems': probs, 'cheated': cheated,
+                   'ended_before_token_returned': early}, f, indent=1)
     return res
 
 
